@@ -152,3 +152,78 @@ def xml_fault_detail(sx, proto):
     for k, v in leaves(DETAILS[shape]):
         ok = ok and ('<%s>%s</%s>' % (k, v, k)).encode() in out
     return bool(ok)
+
+
+# ---------------------------------------------------------------- the Spyne client on the receiving end (SOAP)
+from spyne.client import RemoteProcedureBase as _RPB
+
+
+class _FaultLoopback(_RPB):
+    """in-process transport: request bytes through the real server pipeline, response bytes back into the client"""
+    def __call__(self, *args, **kwargs):
+        from spyne.server import ServerBase as _SB
+        from spyne.context import MethodContext as _MC
+        ctx = self.contexts[0]
+        self.get_out_object(ctx, args, kwargs)
+        self.get_out_string(ctx)
+        server = _SB(self.app)
+        sctx = _MC(server, _MC.SERVER)
+        sctx.in_string = [b''.join(ctx.out_string)]
+        sctx, = server.generate_contexts(sctx)
+        server.get_in_object(sctx)
+        if sctx.in_error is None:
+            server.get_out_object(sctx)
+        server.get_out_string(sctx)
+        ctx.in_string = [b''.join(sctx.out_string)]
+        self.get_in_object(ctx)
+        return ctx
+
+
+CLIENT_CODES = ['Client', 'Client.Custom.Sub', 'Server', 'Server.Busy.Now']
+_CLAPPS = {}
+CL = {}
+
+
+class _ClSvc(Service):
+    @rpc(Integer, _returns=Integer)
+    def plain(ctx, a):
+        if CL.get('kind') == 'fault':
+            raise Fault(CL['code'], CL['msg'])
+        if CL.get('kind') == 'exception':
+            raise KeyError('client secret 4711')
+        return a
+
+
+@harness('C09', params=[(p, k) for p in ('soap11', 'soap12') for k in ('fault', 'exception', 'none')], label=lambda p: '%s %s' % p,
+         functions=['spyne.protocol.soap.soap12.Soap12.fault_from_element', 'spyne.protocol.soap.soap12.Soap12.generate_faultcode',
+                    'spyne.protocol.soap.soap11.Soap11.deserialize', 'spyne.client._base.RemoteProcedureBase.get_in_object'],
+         bounds={'call': 'one method called through the Spyne client (loopback transport); the function raises a Fault with one of four '
+                         'dotted codes and one of three messages (markup characters, non-ASCII, surrounding blanks), raises a KeyError carrying a secret, or returns'})
+def spyne_client_receives_fault(sx, p):
+    """the Spyne client hands the caller the fault the function raised - same code (the envelope prefix of the wire form
+    is not judged), same message - the generic Server fault for any other exception, and the value for a normal return"""
+    proto, kind = p
+    if proto not in _CLAPPS:
+        Pc = {'soap11': Soap11, 'soap12': __import__('spyne.protocol.soap', fromlist=['Soap12']).Soap12}[proto]
+        _CLAPPS[proto] = Application([_ClSvc], 'tns', in_protocol=Pc(), out_protocol=Pc())
+    app = _CLAPPS[proto]
+    code = sx.choose('code', CLIENT_CODES)
+    msg = sx.choose('msg', [u'no', u'a<\xe9 &amp;', u' padded '])      # (the document goes through lxml: concrete texts)
+    CL.clear()
+    CL.update(kind=kind, code=code, msg=msg)
+    ctx = _FaultLoopback('http://x/', app, 'plain')(3)
+    err = ctx.in_error
+    if kind == 'none':
+        return err is None and sx.eq(ctx.in_object[0] if isinstance(ctx.in_object, (list, tuple)) else ctx.in_object, 3)
+    if err is None:
+        return False
+    # the wire vocabulary of the envelope is not judged: the prefix of the code QName, SOAP 1.2's Sender / Receiver for
+    # Client / Server, and the white space SOAP 1.2 readers trim around the Reason text
+    got = err.faultcode.split(':')[-1] if isinstance(err.faultcode, str) else err.faultcode
+    if proto == 'soap12' and isinstance(got, str):
+        head, _, rest = got.partition('.')
+        got = {'Sender': 'Client', 'Receiver': 'Server'}.get(head, head) + _ + rest
+        msg = msg.strip()
+    if kind == 'exception':
+        return got == 'Server' and 'secret' not in repr((err.faultstring, err.detail)) and err.faultstring == 'Internal Error'
+    return got == code and err.faultstring == msg
